@@ -388,7 +388,7 @@ theorem bracedUint_ok {N} (t : IntTy) (hb : 1 ≤ t.bits) (ds bl rest : VBytes) 
     rw [v2.rest, hr]
     have : (123 :: ds ++ 125 :: (bl ++ rest)) = (123 :: ds) ++ 125 :: (bl ++ rest) := by simp
     rw [this]
-    have hl : 1 + ds.length = (123 :: ds).length := by rw [bne_iff_ne]; omega
+    have hl : 1 + ds.length = (123 :: ds).length := by simp only [List.length_cons]; omega
     rw [hl, getElem?_append_len]; rfl
   have hdrop : ((Text.asciiDigits t (lr.v.demand 0) 1).2.demand (1 + ds.length)).rest.drop
       (1 + ds.length + 1) = bl ++ rest := by
